@@ -638,7 +638,7 @@ func init() {
 			return emitSimple(c, "MAP.model", "utilities.CharReferenceMap#latest-covering-registration", c.Pos(c.MustFunc("tokenizers/utilities", "", "NewCharReferenceMap").Pos()), c.mapxRun(), "lookups agree with the list model")
 		}})
 	register(&Rule{ID: "SYM.model", Floor: 1,
-		Doc: "GenericSymbolState evaluated abstractly (Add, NextToken over a StringScanner) for symbol sets over {<,=,>} of lengths 1..3 (singletons, ordered pairs, larger prefix-sharing sets in rotated and reversed registration orders, distinct token types) and every input up to length 4 over {<,=,>,a}: the token is the longest registered prefix (or the first character), with that symbol's type, and exactly its characters are consumed",
+		Doc: "GenericSymbolState evaluated abstractly (Add, NextToken over a StringScanner) for symbol sets over {<,=,>} of lengths 1..3 (singletons, ordered pairs, larger prefix-sharing sets in rotated and reversed registration orders, distinct token types) and every input up to length 4 over {<,=,>,a}: the token is the longest registered prefix (or the first character), with that symbol's type, and exactly its characters are consumed; staged histories: S1 registered, inputs starting with w read, w registered, the same inputs read again at once",
 		Run: func(c *Ctx) []*Obligation {
 			return emitSimple(c, "SYM.model", "generic.GenericSymbolState#longest-registered-symbol", c.Pos(c.MustFunc("tokenizers/generic", "", "NewGenericSymbolState").Pos()), c.symxRun(), "tokens agree with the longest-match model")
 		}})
